@@ -426,6 +426,48 @@ theorem C18_sdf_lazy_initial (recs : List (Line × List Line)) :
       (nr.1, ⟨parseH (recordParts nr.2).1, (recordParts nr.2).2.1, parseM (recordParts nr.2).2.2⟩) := by
   simp [lazyOfRecords, LFile.abs, entryAbs, lrecOfLines, LRec.abs, forceH, forceM, List.map_map, Function.comp_def]
 
+/-- **Adopting a record under a name** (`file[k] = record`, and each item of `SDFile({k: record})`):
+for any record object — also one taken from another parsed file whose header is still text — with
+a parseable header `h`, the file afterwards holds under `k` that record with `h.mol_name = k` (CTAB
+and metadata as they were), and `k` keeps its position or is appended.  (Seeded change C18-16
+skipped the renaming for headers that are still text.) -/
+theorem C18_sdfile_adopt (f : LFile) (k : Line) (r : LRec) (h : Header) (hh : forceH r.header = some h) :
+    (lazyStep f (.adopt k r)).2 = .unit ∧
+    lookupK k (LFile.abs (lazyStep f (.adopt k r)).1) = some ⟨some { h with molName := k }, r.ctab, forceM r.md⟩ ∧
+    (LFile.abs (lazyStep f (.adopt k r)).1).map (·.1)
+      = if k ∈ f.abs.map (·.1) then f.abs.map (·.1) else f.abs.map (·.1) ++ [k] := by
+  simp only [lazyStep, hh]
+  refine ⟨trivial, ?_, ?_⟩
+  · rw [dictSet_abs, lookupK_dictSet]; simp only [entryAbs, LRec.abs, forceH]
+  · rw [dictSet_abs, keys_dictSet]
+
+/-- **`MOLFile.set_structure` / `get_structure`.**  A rejected structure (`write_structure_to_ctab`
+raises: too many atoms or bonds for an explicit V2000, a coordinate too wide, an unknown version,
+an inexpressible default bond type) leaves the lines of the file — hence the molecule it holds —
+exactly as they were; an accepted one keeps the three header lines, whatever they contain, and
+`get_structure` then returns the molecule that was set.  (Seeded change C18-15 deleted the old
+CTAB before the new one was known to exist.) -/
+theorem C18_molfile_set_structure (l0 l1 l2 : Line) (old : List Line) (m : Mol) (d : Nat) (v : Version) :
+    (∀ e, writeCtab m d v = .error e →
+        molSetStructure ([l0, l1, l2] ++ old) m d v = ([l0, l1, l2] ++ old, some e)) ∧
+    (∀ cl, writeCtab m d v = .ok cl → WFMol m → m.atoms ≠ [] →
+        ∃ dc, codeOfBond d = some dc ∧
+          molSetStructure ([l0, l1, l2] ++ old) m d v = ([l0, l1, l2] ++ cl, none) ∧
+          molGetStructure ([l0, l1, l2] ++ cl) = .ok (m.rt dc)) := by
+  constructor
+  · intro e he; simp [molSetStructure, he]
+  · intro cl hc hw hne
+    obtain ⟨dc, hdc, hread⟩ := ctab_roundtrip m d v cl hw hne hc
+    obtain ⟨body, rfl, hbody⟩ := writeCtab_lines m d v cl hc
+    refine ⟨dc, hdc, by simp [molSetStructure, hc], ?_⟩
+    have hp := recordParts_write l0 l1 l2 body [] (fun l hl => (hbody l hl).1)
+    have hc' : molCtabLines ([l0, l1, l2] ++ (body ++ [mEnd])) = body ++ [mEnd] := by
+      have : molCtabLines ([l0, l1, l2] ++ (body ++ [mEnd]) ++ []) = (recordParts ([l0, l1, l2] ++ (body ++ [mEnd]) ++ [])).2.1 := rfl
+      rw [hp] at this
+      simpa using this
+    have hemp : (body ++ [mEnd]).isEmpty = false := by cases body <;> rfl
+    simp only [molGetStructure, hc', hemp, Bool.false_eq_true, if_false, hread]
+
 /-! ## Coordinates after the float32 store -/
 
 /-- **"Coordinates to 0.0001", over ℚ.**  Let `x = q.val` be a float32 (`IsF32`: `m·2^e`,
@@ -539,5 +581,24 @@ example :
         fun kv => (kv.1, kv.2.header.map (·.molName), kv.2.header.map (·.comments)))
       = [("b".toList, some "b".toList, some []), ("c".toList, some "c".toList, some "new".toList)] := by
   decide
+
+/-- a metadata value line that begins with `M  END` (seeded change C18-14 searched the end of the
+CTAB from the back): the record still splits after the first `M  END` and reads back -/
+def exRecMEnd : SDRec :=
+  ⟨exHeader, exMol, [(⟨none, some "note".toList, none, none⟩, ["first".toList, "M  END of data".toList, "last".toList])]⟩
+example : (exRecMEnd.serialize 0 .auto).bind SDRec.deserialize = .ok ⟨exHeader, exMol.rt 8, exRecMEnd.md⟩ := by decide
+/-- records adopted by the constructor under new names while their headers are still text -/
+example :
+    let r := lrecOfLines ((exHeader.serialize.toOption.getD []) ++ [mEnd])
+    (sdfileOfDict [("x".toList, r), ("y".toList, r)]).2 = [.unit, .unit] ∧
+    ((sdfileOfDict [("x".toList, r), ("y".toList, r)]).1.abs.map fun kv => (kv.1, kv.2.header.map (·.molName)))
+      = [("x".toList, some "x".toList), ("y".toList, some "y".toList)] := by decide
+/-- rejected `set_structure` calls (a coordinate of 123456.7, an unknown version, QUADRUPLE as default bond
+type) keep the file -/
+example :
+    let bad : Mol := ⟨[⟨⟨false, 1234567, 10⟩, ⟨false, 0, 1⟩, ⟨false, 0, 1⟩, ['C'], 0⟩], []⟩
+    molSetStructure ["n".toList, [], [], mEnd] bad 0 .auto = (["n".toList, [], [], mEnd], some .badStructure) ∧
+    molSetStructure ["n".toList, [], [], mEnd] exMol 0 .unknown = (["n".toList, [], [], mEnd], some .valueError) ∧
+    molSetStructure ["n".toList, [], [], mEnd] exMol 4 .auto = (["n".toList, [], [], mEnd], some .keyError) := by decide
 
 end BiotiteModel.C18
